@@ -114,7 +114,7 @@ func fmtVariations() map[string][]shapeT {
 		"/summary":                      {{"true", true}, {"false", false}},
 		"/dryrun":                       {{"true", true}, {"false", false}},
 		"/output":                       {{"raw", "raw"}, {"prefixed", "prefixed"}},
-		"/import":                       {{"list1", L{"inc/a.yaml"}}, {"list2", L{"inc/a.yaml", "inc/b.yaml"}}, {"empty", L{}}, {"shared-lists-yaml", L{"inc/shared.yaml"}}, {"shared-lists-json", L{"inc/shared.json"}}, {"shared-lists-toml", L{"inc/shared.toml"}}},
+		"/import":                       {{"list1", L{"inc/a.yaml"}}, {"list2", L{"inc/a.yaml", "inc/b.yaml"}}, {"empty", L{}}, {"shared-lists-yaml", L{"inc/shared.yaml"}}, {"shared-lists-json", L{"inc/shared.json"}}, {"shared-lists-toml", L{"inc/shared.toml"}}, {"chain-yaml-yaml", L{"inc/mid-yaml-yaml.yaml"}}, {"chain-yaml-json", L{"inc/mid-yaml-json.yaml"}}, {"chain-yaml-toml", L{"inc/mid-yaml-toml.yaml"}}, {"chain-json-yaml", L{"inc/mid-json-yaml.json"}}, {"chain-json-json", L{"inc/mid-json-json.json"}}, {"chain-json-toml", L{"inc/mid-json-toml.json"}}, {"chain-toml-yaml", L{"inc/mid-toml-yaml.toml"}}, {"chain-toml-json", L{"inc/mid-toml-json.toml"}}, {"chain-toml-toml", L{"inc/mid-toml-toml.toml"}}},
 	}
 	return v
 }
@@ -230,8 +230,13 @@ func dumpConfig(cfg *config.Config, dir string) string {
 
 var tsRe = regexp.MustCompile(`\d{4}-\d\d-\d\d \d\d:\d\d:\d\d|\d+(\.\d+)?(ns|µs|ms|s)\b|cfg\.(yaml|json|toml)`)
 
+// addrRe: machine addresses, goroutine numbers and code offsets of a Go crash report (when a run crashes,
+// it must crash alike from all three files; where in memory is not part of the result)
+var addrRe = regexp.MustCompile(`0x[0-9a-f]+|goroutine \d+|\+0x[0-9a-f]+|in goroutine \d+`)
+
 func normalizeOut(s, dir string) string {
 	s = strings.ReplaceAll(s, dir, "<DIR>")
+	s = addrRe.ReplaceAllString(s, "<ADDR>")
 	return tsRe.ReplaceAllString(s, "<T>")
 }
 
@@ -248,6 +253,21 @@ func c16One(x *ctx, c fmtCase) bool {
 		"inc/shared.yaml": "tasks:\n  t1:\n    variations:\n      - V: fromshared\npipelines:\n  p1:\n    - task: t1\n      name: extra\n      depends_on: [s1]\n",
 		"inc/shared.json": "{\"tasks\": {\"t1\": {\"variations\": [{\"V\": \"fromshared\"}]}}, \"pipelines\": {\"p1\": [{\"task\": \"t1\", \"name\": \"extra\", \"depends_on\": [\"s1\"]}]}}",
 		"inc/shared.toml": "[[tasks.t1.variations]]\nV = \"fromshared\"\n\n[[pipelines.p1]]\ntask = \"t1\"\nname = \"extra\"\ndepends_on = [\"s1\"]\n", "wa.txt": "", "wx.txt": "", "wb.log": "", "wy.md": "", "wc.md": ""}
+	// import chains main -> mid -> leaf in every combination of formats; mid and leaf each add a task, so the
+	// tree handed up by mid is one that already contains an import of another format
+	leafBody := map[string]string{"yaml": "tasks:\n  leaft:\n    command: echo leaf\n", "json": "{\"tasks\": {\"leaft\": {\"command\": \"echo leaf\"}}}", "toml": "[tasks.leaft]\ncommand = \"echo leaf\"\n"}
+	for _, m := range []string{"yaml", "json", "toml"} {
+		for _, l := range []string{"yaml", "json", "toml"} {
+			leaf := fmt.Sprintf("leaf-%s-%s.%s", m, l, l)
+			aux["inc/"+leaf] = leafBody[l]
+			mid := map[string]string{
+				"yaml": "import: [" + leaf + "]\ntasks:\n  midt:\n    command: echo mid\n",
+				"json": "{\"import\": [\"" + leaf + "\"], \"tasks\": {\"midt\": {\"command\": \"echo mid\"}}}",
+				"toml": "import = [\"" + leaf + "\"]\n\n[tasks.midt]\ncommand = \"echo mid\"\n",
+			}[m]
+			aux[fmt.Sprintf("inc/mid-%s-%s.%s", m, l, m)] = mid
+		}
+	}
 	useBin := os.Getenv("VERIF_TASKCTL") != "" && (*common_Tier() == "thorough" || len(c.Sets) == 0 || x.idx%5 == 0)
 	for _, e := range emitters {
 		b, err := e.emit(tree)
